@@ -263,6 +263,29 @@ def t2Eff (r : T2Raw) : T2Eff := ⟨t2Key r, r.index, r.labelMap, r.rest⟩
 
 def t2Stage {V : Type} (compute : T2Eff → V) (r : T2Raw) : V := compute (t2Eff r)
 
+/-- **IndexVersionFaithful.**  `T2Raw.index` is the code of the identity of the index object AND of everything T2
+reads from it (ids, texts, owners, dates, importance, exact vectors, in order).  `index_version()` is the only
+component of the key that stands for it: the key can only be sufficient for two requests whose equal versions imply
+equal index content.  Within ONE index object this holds as long as every mutation bumps the version (append-only
+`add`); it fails for an in-place upsert that keeps `_ver`, and across two index objects (finding `C05:t2:state`). -/
+def IndexVersionFaithful (r r' : T2Raw) : Prop := r.indexVer = r'.indexVer → r.index = r'.index
+
+/-! Miniature of `InMemoryIndex` (rows = (id, content code)) for the version-faithfulness statements. -/
+structure MemIdx where
+  eps : List (Nat × Nat)
+  ver : Nat
+deriving Repr, DecidableEq
+
+/-- `InMemoryIndex.add` as written: append, bump. -/
+def MemIdx.addAppend (m : MemIdx) (ep : Nat × Nat) : MemIdx := ⟨m.eps ++ [ep], m.ver + 1⟩
+
+/-- An "upsert by id" `add`: a row with an existing id is replaced in place and the version is NOT bumped. -/
+def MemIdx.addUpsert (m : MemIdx) (ep : Nat × Nat) : MemIdx :=
+  if m.eps.any (fun e => e.1 == ep.1) then ⟨m.eps.map (fun e => if e.1 == ep.1 then ep else e), m.ver⟩
+  else m.addAppend ep
+
+def MemIdx.runAppend (m : MemIdx) (l : List (Nat × Nat)) : MemIdx := l.foldl MemIdx.addAppend m
+
 /-- The key as it was before the repair (owner, k_retrieval, now, ranking, residual cap, k_surface absent). -/
 def t2KeyLegacy (r : T2Raw) : T2Key :=
   { t2Key r with ownerScope := 0, owner := 0, kRetrieval := 0, now := 0, rank := (0, 0, 0), residualCap := 0, kSurface := 0 }
